@@ -18,16 +18,29 @@ import (
 	"honnef.co/go/tools/go/ir/irutil"
 )
 
-// sparse <lat> <params> <tabs> <hexsrc>
+// sparse <lat> <params> <tabs> <hexsrc> [<mm>]
 //
 // Builds the IR of function f of the given source with the real builder, runs the real
 // sparse.Instance.Forward with a table-driven transfer and prints
 //
-//	sparse <lat> @ <n> <nvals> <instrs> <init> <tabs> => val=<code>,…
+//	sparse <lat> @ <n> <nvals> <instrs> <init> <tabs> => val=<code>,…[ ~ val=…]
 //
-// i.e. the structure the solver saw (instructions in block order numbered 0..n-1, their
-// Operands / Referrers as the real IR reports them, the transfer assigned to each) in the
-// input format of the Lean model, followed by the final Instance.Value of every value.
+// i.e. the structure the solver saw (instructions in block order numbered 0..n-1, the
+// operands their transfer reads / their Referrers as the real IR reports them, the transfer
+// assigned to each) in the input format of the Lean model, followed by the final
+// Instance.Value of every value. The solver is run three times (its worklist is a Go map:
+// another visiting order each time); differing results are all printed, separated by " ~ ".
+//
+// mm > 0 selects MULTI-MAPPING transfers (what sparse.Ms exists for): besides the mapping
+// for its own value an instruction's transfer returns, before or after it,
+//   - for operands that are not defined by an instruction (parameters, constants): a
+//     constant mapping equal to the state the value was given with Set (a stable mapping,
+//     e.g. "the source of this dependency is parameter p");
+//   - for a value-defining call with a static callee: a constant summary state for the
+//     callee function value, which no transfer reads (it starts at Ident and changes once).
+//
+// An instr entry is kind:ops:refs:pre:post with pre/post = the constant mappings `v=c,…`
+// returned before / after the instruction's own mapping.
 
 type stab struct {
 	binary bool
@@ -45,8 +58,15 @@ func sparseLine(line string) (res string) {
 		}
 	}()
 	tok := strings.Fields(line)
-	if len(tok) != 5 || tok[0] != "sparse" {
-		bad("sparse: want 5 tokens")
+	if (len(tok) != 5 && len(tok) != 6) || tok[0] != "sparse" {
+		bad("sparse: want 5 or 6 tokens")
+	}
+	mm := 0
+	if len(tok) == 6 {
+		mm = atoi(tok[5])
+		if mm < 0 {
+			bad("mm < 0")
+		}
 	}
 	lat := tok[1]
 	size := 0
@@ -110,21 +130,35 @@ func sparseLine(line string) (res string) {
 
 	switch {
 	case lat == "cp":
-		return sparseRun[flatLat](fn, lat, size, params, tabs, unary, binary, tok[3])
+		return sparseRun[flatLat](fn, lat, size, params, tabs, unary, binary, tok[3], mm)
 	case lat == "n5":
-		return sparseRun[n5Lat](fn, lat, size, params, tabs, unary, binary, tok[3])
+		return sparseRun[n5Lat](fn, lat, size, params, tabs, unary, binary, tok[3], mm)
 	default:
-		return sparseRun[bitsLat](fn, lat, size, params, tabs, unary, binary, tok[3])
+		return sparseRun[bitsLat](fn, lat, size, params, tabs, unary, binary, tok[3], mm)
 	}
 }
 
-type ispec struct {
-	kind string // phi | none | u | b
-	tab  int
-	ops  []ir.Value
+type xmap struct {
+	val  ir.Value
+	code int
 }
 
-func sparseRun[L dfa.Semilattice[int]](fn *ir.Function, lat string, size int, params []int, tabs []stab, unary, binary []int, tabStr string) string {
+type ispec struct {
+	kind      string // phi | none | u | b
+	tab       int
+	ops       []ir.Value // the values the transfer reads
+	pre, post []xmap     // constant extra mappings returned before / after the own one
+}
+
+func isCallee(v ir.Value) bool {
+	switch v.(type) {
+	case *ir.Function, *ir.Builtin:
+		return true
+	}
+	return false
+}
+
+func sparseRun[L dfa.Semilattice[int]](fn *ir.Function, lat string, size int, params []int, tabs []stab, unary, binary []int, tabStr string, mm int) string {
 	var l L
 	// number the instructions
 	var instrs []ir.Instruction
@@ -158,6 +192,7 @@ func sparseRun[L dfa.Semilattice[int]](fn *ir.Function, lat string, size int, pa
 	}
 
 	specs := make([]ispec, n)
+	allOps := make([][]ir.Value, n)
 	for i, in := range instrs {
 		var ops []ir.Value
 		if phi, ok := in.(*ir.Phi); ok {
@@ -169,15 +204,27 @@ func sparseRun[L dfa.Semilattice[int]](fn *ir.Function, lat string, size int, pa
 				}
 			}
 		}
-		sp := ispec{ops: ops}
+		allOps[i] = ops
+		for _, o := range ops {
+			numOf(o)
+		}
+		// a transfer reads the data operands, not the callee of a call
+		var rd []ir.Value
+		for _, o := range ops {
+			if !isCallee(o) {
+				rd = append(rd, o)
+			}
+		}
+		sp := ispec{ops: rd}
 		_, isVal := in.(ir.Value)
 		switch in := in.(type) {
 		case *ir.Phi:
 			sp.kind = "phi"
+			sp.ops = ops
 		case *ir.BinOp:
 			sp.kind, sp.tab = "b", binary[int(in.Op)%len(binary)]
-			if len(ops) != 2 {
-				bad("BinOp with %d operands", len(ops))
+			if len(rd) != 2 {
+				bad("BinOp with %d operands", len(rd))
 			}
 		case *ir.UnOp:
 			sp.kind, sp.tab = "u", unary[int(in.Op)%len(unary)]
@@ -189,35 +236,10 @@ func sparseRun[L dfa.Semilattice[int]](fn *ir.Function, lat string, size int, pa
 			}
 		}
 		specs[i] = sp
-		for _, o := range ops {
-			numOf(o)
-		}
 	}
 
-	calls := 0
-	transfer := func(ins *sparse.Instance[L, int], in ir.Instruction) []sparse.Mapping[int] {
-		calls++
-		if calls > 2000000 {
-			panic("diverges: more than 2000000 transfer calls")
-		}
-		sp := specs[idx[in]]
-		switch sp.kind {
-		case "u":
-			d := l.Ident()
-			for _, o := range sp.ops {
-				d = l.Merge(d, ins.Value(o))
-			}
-			return []sparse.Mapping[int]{sparse.M(in.(ir.Value), tabs[sp.tab].t[d], sparse.Decision{})}
-		case "b":
-			a, b := ins.Value(sp.ops[0]), ins.Value(sp.ops[1])
-			return []sparse.Mapping[int]{sparse.M(in.(ir.Value), tabs[sp.tab].t[a*size+b], sparse.Decision{})}
-		}
-		return nil
-	}
-
-	ins := &sparse.Instance[L, int]{Transfer: transfer, Mapping: map[ir.Value]sparse.Mapping[int]{}}
 	// initial states of non-instruction values
-	var inits []string
+	initCode := map[ir.Value]int{}
 	for _, v := range others {
 		code := -1
 		switch v := v.(type) {
@@ -235,13 +257,125 @@ func sparseRun[L dfa.Semilattice[int]](fn *ir.Function, lat string, size int, pa
 			}
 		}
 		if code >= 0 && code != l.Ident() {
-			ins.Set(v, code)
-			inits = append(inits, fmt.Sprintf("%d=%d", valIdx[v], code))
+			initCode[v] = code
+		}
+	}
+	stateOf := func(v ir.Value) int {
+		if c, ok := initCode[v]; ok {
+			return c
+		}
+		return l.Ident()
+	}
+
+	// multi-mapping transfers
+	if mm > 0 {
+		for i, in := range instrs {
+			if specs[i].kind == "phi" {
+				continue
+			}
+			_, isVal := in.(ir.Value)
+			for j, o := range allOps[i] {
+				if _, def := o.(ir.Instruction); def {
+					if _, inFn := idx[o.(ir.Instruction)]; inFn {
+						continue
+					}
+				}
+				h := hash(fmt.Sprintf("mm/%d/%d/%d", mm, i, j))
+				var x xmap
+				switch {
+				case isCallee(o):
+					// the mapping changes once, so the instruction must have referrers to enqueue
+					if !isVal || h%4 == 0 {
+						continue
+					}
+					x = xmap{o, 1 + hash("callee/"+o.Name())%(size-1)}
+				default:
+					if h%3 == 0 {
+						continue
+					}
+					x = xmap{o, stateOf(o)}
+				}
+				if (h>>8)&1 == 0 {
+					specs[i].pre = append(specs[i].pre, x)
+				} else {
+					specs[i].post = append(specs[i].post, x)
+				}
+			}
 		}
 	}
 
-	ins.Forward(fn)
+	calls := 0
+	transfer := func(ins *sparse.Instance[L, int], in ir.Instruction) []sparse.Mapping[int] {
+		calls++
+		if calls > 2000000 {
+			panic("diverges: more than 2000000 transfer calls")
+		}
+		sp := specs[idx[in]]
+		var ms []sparse.Mapping[int]
+		for _, x := range sp.pre {
+			ms = append(ms, sparse.M(x.val, x.code, sparse.Decision{Source: true}))
+		}
+		switch sp.kind {
+		case "u":
+			d := l.Ident()
+			for _, o := range sp.ops {
+				d = l.Merge(d, ins.Value(o))
+			}
+			ms = append(ms, sparse.M(in.(ir.Value), tabs[sp.tab].t[d], sparse.Decision{Inputs: sp.ops}))
+		case "b":
+			a, b := ins.Value(sp.ops[0]), ins.Value(sp.ops[1])
+			ms = append(ms, sparse.M(in.(ir.Value), tabs[sp.tab].t[a*size+b], sparse.Decision{Inputs: sp.ops}))
+		}
+		for _, x := range sp.post {
+			ms = append(ms, sparse.M(x.val, x.code, sparse.Decision{Source: true}))
+		}
+		return ms
+	}
 
+	var inits []string
+	for _, v := range others {
+		if c, ok := initCode[v]; ok {
+			inits = append(inits, fmt.Sprintf("%d=%d", valIdx[v], c))
+		}
+	}
+	nvals := n + len(others)
+
+	var results []string
+	for run := 0; run < 3; run++ {
+		calls = 0
+		ins := &sparse.Instance[L, int]{Transfer: transfer, Mapping: map[ir.Value]sparse.Mapping[int]{}}
+		for _, v := range others {
+			if c, ok := initCode[v]; ok {
+				ins.Set(v, c)
+			}
+		}
+		ins.Forward(fn)
+		vals := make([]string, nvals)
+		for i := range vals {
+			vals[i] = strconv.Itoa(l.Ident())
+		}
+		for v, i := range valIdx {
+			vals[i] = strconv.Itoa(ins.Value(v))
+		}
+		r := "val=" + strings.Join(vals, ",")
+		dup := false
+		for _, o := range results {
+			if o == r {
+				dup = true
+			}
+		}
+		if !dup {
+			results = append(results, r)
+		}
+	}
+
+	showX := func(xs []xmap) string {
+		var p []string
+		for _, x := range xs {
+			p = append(p, fmt.Sprintf("%d=%d", valIdx[x.val], x.code))
+		}
+		return joinOr(p)
+	}
 	var parts []string
 	for i, in := range instrs {
 		sp := specs[i]
@@ -262,18 +396,10 @@ func sparseRun[L dfa.Semilattice[int]](fn *ir.Function, lat string, size int, pa
 				refs = append(refs, strconv.Itoa(j))
 			}
 		}
-		parts = append(parts, k+":"+joinOr(ops)+":"+joinOr(refs))
+		parts = append(parts, k+":"+joinOr(ops)+":"+joinOr(refs)+":"+showX(sp.pre)+":"+showX(sp.post))
 	}
-	nvals := n + len(others)
-	vals := make([]string, nvals)
-	for i := range vals {
-		vals[i] = strconv.Itoa(l.Ident())
-	}
-	for v, i := range valIdx {
-		vals[i] = strconv.Itoa(ins.Value(v))
-	}
-	return fmt.Sprintf("sparse %s @ %d %d %s %s %s => val=%s", lat, n, nvals, strings.Join(parts, ";"),
-		joinOr(inits), tabStr, strings.Join(vals, ","))
+	return fmt.Sprintf("sparse %s @ %d %d %s %s %s => %s", lat, n, nvals, strings.Join(parts, ";"),
+		joinOr(inits), tabStr, strings.Join(results, " ~ "))
 }
 
 func joinOr(s []string) string {
